@@ -329,7 +329,12 @@ func reifyStruct(opts *options, orig reflect.Value, cfg *Config) Error {
 					if err != nil {
 						return err
 					}
-					vField.Set(v)
+					if vField.CanSet() {
+						vField.Set(v)
+					} else {
+						// the list is held by value in an interface: the field takes the result
+						fInfo.value.Set(v)
+					}
 
 				default:
 					return raiseInlineNeedsObject(cfg, fInfo.name, fInfo.value.Type())
